@@ -46,6 +46,9 @@ def items(tier, seed):
     # periodic meshes made by the library: only the state itself (p is not vertex-indexed, so raw relabelling does not apply)
     for name in ms.periodic_roots(seed):
         its.append((name, 0))
+    # meshes made by the library's named constructors (budget by size as for seeds)
+    for name in ms.init_roots(seed):
+        its.append((name, 0))
     return its
 
 
@@ -111,7 +114,8 @@ def work(item, tier, seed):
     out = Out()
     out.set_item(item)
     periodic = name.startswith('P:')
-    st0 = ms.periodic_roots(seed)[name] if periodic else ms.seeds(seed)[name]
+    st0 = (ms.periodic_roots(seed)[name] if periodic else ms.init_roots(seed)[name] if name.startswith('I:')
+           else ms.seeds(seed)[name])
     root = st0 if r == 0 else lib_roots(st0)[r - 1]
     nstates = 0
     for evn in ms.bfs([(root, 0 if periodic else budget(root, tier))], ms.raw_transitions, 0):
